@@ -42,7 +42,7 @@ structure StepOK (s : Spec.SPos) (m : Spec.SMove) : Prop where
   ne : m.src ≠ m.dst
   own : gd s.board m.src ≠ 0 ∧ gd s.board m.src = mkPiece s.side (kindOf (gd s.board m.src))
   target : gd s.board m.dst ≠ 0 → gd s.board m.dst = mkPiece (1 - s.side) (kindOf (gd s.board m.dst))
-  promo : m.promo < 8 ∧ (m.promo ≠ 0 → kindOf (gd s.board m.src) = PAWN ∧ m.dst ≠ s.ep)
+  promo : m.promo < 7 ∧ (m.promo ≠ 0 → kindOf (gd s.board m.src) = PAWN ∧ m.dst ≠ s.ep)
   /-- pawn geometry: single step, double step from the home rank, or a diagonal step to the next rank -/
   pawn : kindOf (gd s.board m.src) = PAWN →
     (s.side = 0 → (m.dst = m.src + 8 ∨ (m.dst = m.src + 16 ∧ m.src / 8 = 1) ∨ ((m.dst = m.src + 7 ∨ m.dst = m.src + 9) ∧ m.dst / 8 = m.src / 8 + 1))) ∧
@@ -634,7 +634,7 @@ theorem refine_normal (T : ZTable) (p : Position) (sm : Spec.SMove) (ok : StepOK
   have hcode : codeOf (absPos p) sm = mkPromotion sm.src sm.dst sm.promo := by
     unfold codeOf; rw [hcast]; rfl
   rw [hcode]
-  obtain ⟨c1, c2, c3, c4⟩ := Props.C16_encoding sm.src sm.dst sm.promo hsrc hdst hpr8
+  obtain ⟨c1, c2, c3, c4⟩ := Props.C16_encoding sm.src sm.dst sm.promo hsrc hdst (by omega)
   have flds := doMove_normal_fields T p (mkPromotion sm.src sm.dst sm.promo) c4 (by rw [c1, c2]; exact hne)
   simp only [c1, c2, c3, at_eq_gd] at flds
   obtain ⟨f1, f2, f3, f4, f5, f6⟩ := flds
